@@ -67,6 +67,18 @@ type c08E2EGrammar struct {
 	opts    string
 	recCanc bool
 	recMini bool
+	plain   bool // a plain alternative 'E Tok ke' (E empty) competes with the predicate set; needs lalr(2)
+}
+
+func (g c08E2EGrammar) kind() string {
+	k := "direct"
+	if g.nested {
+		k = "nested-in-predicate"
+	}
+	if g.plain {
+		k = "plain-rule-vs-predicates-lalr2/" + k
+	}
+	return k
 }
 
 func c08E2EGrammarText(r *rand.Rand, pkg string) c08E2EGrammar {
@@ -76,6 +88,10 @@ func c08E2EGrammarText(r *rand.Rand, pkg string) c08E2EGrammar {
 	var b strings.Builder
 	fmt.Fprintf(&b, "language %s(go);\n\nlang = \"%s\"\npackage = \"w/%s\"\neventBased = true\n", pkg, pkg, pkg)
 	canc, rec, opt := r.Intn(2) == 0, r.Intn(2) == 0, r.Intn(2) == 0
+	plain := r.Intn(4) == 0
+	if plain {
+		opt = false // optimizeTables cannot encode lalr(k) decisions
+	}
 	if nested {
 		rec = true // a decision inside a predicate needs recursive lookaheads
 	}
@@ -98,6 +114,9 @@ func c08E2EGrammarText(r *rand.Rand, pkg string) c08E2EGrammar {
 	for _, o := range opts {
 		b.WriteString(o + "\n")
 	}
+	if plain {
+		opts = append(opts, "lalr(2)")
+	}
 	b.WriteString("\n:: lexer\n\nspace: /[ \\t\\r\\n]+/ (space)\n'x': /x/\n'z': /z/\n'e': /e/\n")
 	for m := 0; m < 1<<uint(n); m++ {
 		fmt.Fprintf(&b, "'t%d': /t%d/\n", m, m)
@@ -105,7 +124,11 @@ func c08E2EGrammarText(r *rand.Rand, pkg string) c08E2EGrammar {
 	for j := range leaves {
 		fmt.Fprintf(&b, "'k%d': /k%d/\n", j, j)
 	}
-	b.WriteString("\n:: parser\n\n%input Z;\n\n")
+	if plain {
+		b.WriteString("'ke': /ke/\n\n:: parser lalr(2)\n\n%input Z;\n\nE : %empty ;\n\n")
+	} else {
+		b.WriteString("\n:: parser\n\n%input Z;\n\n")
+	}
 	if nested {
 		b.WriteString("Z -> Root :\n    (?= Q) 'x' Inner 'e' -> OutA\n  | (?= !Q) 'x' 'z' -> OutB\n;\n\nQ :\n    'x' Inner 'e' ;\n\n")
 	} else {
@@ -133,6 +156,9 @@ func c08E2EGrammarText(r *rand.Rand, pkg string) c08E2EGrammar {
 		}
 		fmt.Fprintf(&b, "Tok 'k%d' -> Alt%d\n", j, j)
 	}
+	if plain {
+		b.WriteString("  | E Tok 'ke' -> AltE\n")
+	}
 	b.WriteString(";\n\nTok :\n")
 	for m := 0; m < 1<<uint(n); m++ {
 		if m == 0 {
@@ -159,7 +185,7 @@ func c08E2EGrammarText(r *rand.Rand, pkg string) c08E2EGrammar {
 		}
 		b.WriteString(";\n\n")
 	}
-	return c08E2EGrammar{text: b.String(), leaves: leaves, nPred: n, nested: nested, opts: strings.Join(opts, ","), recCanc: canc && rec, recMini: rec && mini}
+	return c08E2EGrammar{text: b.String(), leaves: leaves, nPred: n, nested: nested, opts: strings.Join(opts, ","), recCanc: canc && rec, recMini: rec && mini, plain: plain}
 }
 
 func c08E2E(c *fw.Ctx) {
@@ -206,6 +232,14 @@ func c08E2E(c *fw.Ctx) {
 				jobs = append(jobs, genrun.Job{ID: len(jobs), Pkg: pkgs[gi].Name, Mode: "parse", Text: text})
 			}
 		}
+		if g.plain {
+			c.Count("e2e_grammars_plain_rule_vs_predicates_lalr2", 1)
+			for m := 0; m < 1<<uint(g.nPred); m++ {
+				text := fmt.Sprintf("x t%d ke e", m)
+				metas = append(metas, meta{gi, m, false, text, -2})
+				jobs = append(jobs, genrun.Job{ID: len(jobs), Pkg: pkgs[gi].Name, Mode: "parse", Text: text})
+			}
+		}
 		if g.nested {
 			metas = append(metas, meta{gi, 0, true, "x z", -1})
 			jobs = append(jobs, genrun.Job{ID: len(jobs), Pkg: pkgs[gi].Name, Mode: "parse", Text: "x z"})
@@ -248,18 +282,22 @@ func c08E2E(c *fw.Ctx) {
 			if leaf < 0 {
 				continue // cannot happen for a decision tree
 			}
-			if m.tail != leaf {
+			if m.tail == -2 {
+				// the plain alternative does not depend on the predicates
+				want = []string{"AltE"}
+			} else if m.tail != leaf {
 				// the input continues with another alternative's closing token: it is not a sentence
 				if t.OK {
-					c.Violate("e2e/non-sentence-accepted/"+map[bool]string{true: "nested-in-predicate", false: "direct"}[g.nested],
+					c.Violate("e2e/non-sentence-accepted/"+g.kind(),
 						fmt.Sprintf("options [%s], input %q: assignment mask %d selects Alt%d, the input closes with k%d; events %v\n%s", g.opts, m.text, m.mask, leaf, m.tail, t.Events, g.text),
 						map[string]string{"grammar.tm": g.text, "input.txt": m.text})
 				} else {
 					c.Count("e2e_wrong_tail_rejected", 1)
 				}
 				continue
+			} else {
+				want = []string{fmt.Sprintf("Alt%d", leaf)}
 			}
-			want = []string{fmt.Sprintf("Alt%d", leaf)}
 			if g.nested {
 				want = append(want, "OutA")
 			} else {
@@ -270,10 +308,7 @@ func c08E2E(c *fw.Ctx) {
 		for _, e := range t.Events {
 			got = append(got, e.T)
 		}
-		kind := "direct"
-		if g.nested {
-			kind = "nested-in-predicate"
-		}
+		kind := g.kind()
 		if t.Panic != "" || !t.OK || strings.Join(got, ",") != strings.Join(want, ",") {
 			sig := "e2e/wrong-alternative-selected/" + kind
 			if !t.OK {
